@@ -130,8 +130,10 @@ def r2_expand(run, F):
         if body.get("k") == "Binary" and body.get("op") == "Ne" and len(comps) == 2 and None not in comps and \
                 {hirq.unwrap_trivial(body["lhs"]).get("lid"), hirq.unwrap_trivial(body["rhs"]).get("lid")} == set(comps):
             self_import = True      # retain(|(a, b)| a != b) on the pair set, whatever the components are called
-        if body.get("k") == "Unary" and body.get("op") == "Not" and any(hirq.callee(x) == "alpha::expander::is_import" for x in hirq.calls(body)):
-            drop_imports = c
+        tests_import = any(hirq.callee(x) == "alpha::expander::is_import" for x in hirq.calls(body)) or \
+            any(str(x.get("ctor_of") or x.get("res") or "").endswith("Declaration::Import") and x.get("k") in ("Struct", "TupleStruct", "Path") for x in walk(body))
+        if body.get("k") == "Unary" and body.get("op") == "Not" and tests_import:
+            drop_imports = c       # retain(|x| !<x is an import>), through is_import or written out with matches!
     run.ob("R2-SELF-IMPORT", "imports.retain(from != to)", self_import, F.where(b), "a module importing itself must not splice its own declarations")
     splice = [c for c in hirq.calls(b["hir"]) if c.get("k") == "MethodCall" and c.get("name") == "splice"]
     exp = [c for c in hirq.calls(b["hir"]) if hirq.callee(c) == "alpha::expander::export"]
